@@ -22,7 +22,7 @@ run_one() { # <patch> <name> <prop>
   cd $MX/repo && git checkout -q -- . && git clean -fdq
   git apply "$1" || { echo "$2: patch does not apply" >> $OUT; return; }
   cd $MX/harness
-  VERIF_ROOT=$MX/root VERIF_REPO=$MX/repo timeout 1800 $MX/vcheck $3 --tier quick > $MX/out.txt 2>&1; rc=$?
+  VERIF_ROOT=$MX/root VERIF_REPO=$MX/repo VERIF_THR_TARGET=$MX/target-thr timeout 1800 $MX/vcheck $3 --tier quick > $MX/out.txt 2>&1; rc=$?
   if grep -q "harness build failed" $MX/out.txt; then echo "$2: harness does not build" >> $OUT; return; fi
   k=$(grep -c "^VIOLATION" $MX/out.txt)
   echo "$2: $3 exit=$rc violations=$k $(grep -m1 violation-detail $MX/out.txt | cut -c1-140)" >> $OUT
@@ -30,6 +30,7 @@ run_one() { # <patch> <name> <prop>
 i=0
 for d in /verif/seeded/*/; do
   i=$((i+1)); [ $((i % NSHARDS)) -eq $SHARD ] || continue
+  [ -f $d/patch.diff ] || continue
   n=$(basename $d); p=${n%%-*}
   # a change whose violation belongs to another property's check names it in meta.json ("own_check")
   oc=$(python3 -c "import json;print(json.load(open('$d/meta.json')).get('own_check',''))" 2>/dev/null)
